@@ -410,3 +410,31 @@ def run(ctx):
                          "try_execute_command skips the command regexes depending on QueryRouter.%s: a valid command (any spelling, any length) can be forwarded to the server instead of being handled, and SHOW no longer reports what the SETs established" % selff,
                          tec6.blocks[sw.block]["term"].get("span", ""))
             r6.check(nsk >= 1, "early-returns", "%d early return(s) before the command regexes, all decided by the message" % nsk, "no early return found before the regex set (anchor changed)")
+
+    # ---------------- R7 the error reply is built whole (round 6)
+    r7 = ctx.rule("C13-R7", "a refused command is answered with a well-formed ErrorResponse: in the encoder every field is appended as it was built (type byte, text, terminating NUL) - nothing shortens a field "
+                  "after its terminator was added (a cap applied to `text\\0` cuts the terminator off for long texts, e.g. the error that quotes a 300-digit sharding key)", floor=2)
+    for enc in ("pgcat::messages::error_response_terminal::{closure#0}",):
+        eb = ctx.body(enc, r7)
+        if not eb:
+            continue
+        SHORTEN = r"::(truncate|split_off|split_to|drain|pop|resize|retain|remove|advance|set_len|clear|shrink_to)$"
+        puts = eb.calls("re:BufMut>::put_slice$|BufMut::put_slice$|BufMut>::put$|extend_from_slice$")
+        npay = 0
+        for c in puts:
+            if len(c.args) < 2:
+                continue
+            vis = set()
+            origins(eb, c.args[1], visited=vis, taint=True)
+            vis = {l for l in vis if isinstance(l, int)}
+            cut = []
+            for k_ in eb.calls("re:" + SHORTEN):
+                v2 = set()
+                origins(eb, k_.args[0], visited=v2)
+                if {l for l in v2 if isinstance(l, int)} & vis:
+                    cut.append(k_)
+            npay += 1
+            r7.check(not cut, "field-appended-as-built#%d" % npay, "the bytes appended at %s are not shortened after they were built" % c.span.split(":", 1)[1],
+                     "the field appended at %s is shortened (%s) after it was built with its terminating NUL: beyond the cap the ErrorResponse has a correct length word but an unterminated field list - "
+                     "a client that parses the body runs off the end of the message" % (c.span.split(":", 1)[1], sorted({k_.name.split("::")[-1] for k_ in cut})), cut[0].where() if cut else "")
+        r7.check(npay >= 4, "fields", "%d appended pieces examined in %s" % (npay, enc.split("::")[-2]), "expected >= 4 appended pieces in %s, found %d" % (enc, npay))
